@@ -533,7 +533,8 @@ var standingAssumptions = []string{
 	"pointer receivers are non-nil; pointer parameters are not nil-checked by the sweep",
 	"interface values never hold typed nil maps (JSON-shaped data)",
 	"no interior pointers to struct fields escape (Burstall heap: one array per field)",
-	"append returns a fresh backing array; copy havocs the destination contents",
+	"append returns a fresh backing array; copy between slices is exact (memmove), copy from a string havocs the destination",
+	"a function-valued parameter is never one of the called function's own function literals",
 	"calls without contract: small non-recursive same-module callees are inlined; otherwise the statically inferred write set (per heap component, via CHA for interface calls and signature matching for function values) is havocked and the result is unconstrained",
 	"external (non-rulio) functions write only memory directly reachable from their pointer/slice/map arguments and may call function-valued arguments",
 	"goroutines: spawned bodies' effects are not applied; channel operations are havoc points; sync.WaitGroup is a no-op",
